@@ -53,7 +53,32 @@ class Check:
                             "output": out[-3000:]}, found=False)
         return ok
 
+    def regen_tables(self):
+        """Translator step: regenerate lean/Rink/Gen/*.lean from the compiled source (rkh tables)."""
+        gen = os.path.join(self.work, "gen")
+        os.makedirs(gen, exist_ok=True)
+        rc, out = sh([RKH, "tables", "--out", gen])
+        ok = rc == 0
+        changed = []
+        if ok:
+            for fn in sorted(os.listdir(gen)):
+                if not fn.endswith(".lean"):
+                    continue
+                new = open(os.path.join(gen, fn), encoding="utf-8").read()
+                dst = os.path.join(LEAN, "Rink", "Gen", fn)
+                old = open(dst, encoding="utf-8").read() if os.path.exists(dst) else None
+                if old != new:
+                    open(dst, "w", encoding="utf-8").write(new)
+                    changed.append(fn)
+        self.obligations.append(("gen:tables regenerated from the compiled source", ok, "changed: %s" % changed if changed else ""))
+        self.coverage["generated_tables_changed"] = changed
+        if not ok:
+            self.violation("gen:tables", "rkh tables failed", {"kind": "obligation", "obligation": "rkh tables", "output": out[-2000:]}, found=False)
+        return ok
+
     def build_lean(self, targets):
+        if os.path.exists(RKH):
+            self.regen_tables()
         rc, out = sh(["lake", "build"] + targets, cwd=LEAN)
         ok = rc == 0
         self.obligations.append(("build:lake " + " ".join(targets), ok, "" if ok else out[-1500:]))
